@@ -44,7 +44,7 @@ def run(ctx):
         if exe is None:
             raise ToolingError("generated std C does not compile (%s):\n%s" % (v, log[-3000:]))
         exes[v] = exe
-    maxsize = (1 << 20) if thorough else (96 << 10)
+    maxsize = (1 << 20) if thorough else (64 << 10)
     corp = stdinputs.corpus(max_size=maxsize)
     bydec = {}
     for (p, dec, extra) in corp:
@@ -53,7 +53,7 @@ def run(ctx):
     inputs = [(p, dec, extra, "corpus") for (p, dec, extra) in corp]
     for (p, dec, extra) in corp:
         data = open(p, "rb").read()
-        for i in range(3 if thorough else 1):
+        for i in range(3 if thorough else (1 if rng.random() < 0.5 else 0)):
             kind = rng.choice(stdinputs.MUT_KINDS)
             mp = os.path.join(mdir, "%s.%s%d" % (os.path.basename(p), kind, i))
             open(mp, "wb").write(stdinputs.mutate(data, rng, kind))
@@ -72,7 +72,7 @@ def run(ctx):
     meta = {}
     base_of = {}
     jid = 0
-    nvar = 8 if thorough else 4
+    nvar = 8 if thorough else 3
     for (p, dec, extra, origin) in inputs:
         n = os.path.getsize(p)
         scheds = [{"src": "*", "dst": "*"}]
